@@ -35,6 +35,8 @@ struct c16_io {
   /* observations */
   uint8_t log[C16_LOG_MAX];   /* the first C16_LOG_MAX bytes the target received */
   uint32_t len;               /* number of bytes the target received */
+  uint32_t len_full;          /* ... by complete writes (log position; stays concrete) */
+  int short_seen;             /* a short write happened */
   struct { uint32_t n; uint8_t first, last; const void *src; } call[C16_NCALLS];
   uint32_t n_write_calls, n_open, n_close, n_unlink, n_stat, n_clearerr;
   int fd_open;               /* 1 while C16_FD is open */
